@@ -187,12 +187,22 @@ def cases(tier, seed):
         yield {"fam": "random", "i": i}
     for i in range(12):
         yield {"fam": "components", "i": i}
+    for i in range(24 if tier == "quick" else 200):
+        yield {"fam": "setters", "i": i}
     for i in range(5):
         yield {"fam": "shipped", "i": i}
 
 
 def setup(ctx):
     monitors.install(ctx, set())
+    # a save that fails half way (a numpy scalar cannot be represented) must not affect later saves
+    try:
+        d = tempfile.mkdtemp(prefix="c19f_", dir=os.environ.get("VERIF_TMP"))
+        with pan.quiet():
+            pan.NaiveThresholdMatching(matching_threshold=np.float64(0.5)).save_to_config(os.path.join(d, "fails.yaml"))
+        ctx.count("C19.numpy_scalar_save_succeeded")
+    except Exception:  # noqa: BLE001
+        ctx.count("C19.failed_save_before_cases")
 
 
 def roundtrip(ctx, obj, cls, tmpdir, det, feats, tag):
@@ -348,6 +358,49 @@ def components(ctx, i, tmpdir):
                 break
 
 
+def setters(ctx, i, tmpdir):
+    """an evaluator changed through its setters after construction, then saved and loaded"""
+    r = gen.rng(ctx.seed, "c19set", i)
+    it = ["UNMATCHED_INSTANCE", "SEMANTIC"][i % 2]
+    cfg = dict(BASE, input=it)
+    ev = pan.make_evaluator(cfg)
+    before = pan.make_evaluator(cfg)
+    m2 = FIELDS["matcher"][int(r.integers(0, len(FIELDS["matcher"])))]
+    b2 = ["cc3d", "scipy"][i % 2]
+    changed = []
+    if i % 3 != 2:
+        ev._set_instance_matcher(pan.make_matcher(m2))
+        changed.append("matcher")
+    if i % 3 != 1 and it == "SEMANTIC":
+        ev._set_instance_approximator(pan.ConnectedComponentsInstanceApproximator(pan.BACKEND[b2]))
+        changed.append("backend")
+    if i % 2:
+        ev.set_log_group_times(True)
+        changed.append("save_group_times")
+    det = {"cfg": cfg, "changed_through_setters": changed, "matcher": m2, "backend": b2}
+    feats = {"varied": "setters:" + "+".join(changed)}
+    ctx.count("evaluations")
+    loaded = roundtrip(ctx, ev, pan.Panoptica_Evaluator, tmpdir, det, feats, "set")
+    if loaded is None:
+        return
+    pool = probes(it)
+    sens = 0
+    for n, p, q in pool:
+        a, b = observe(ev, cfg, p, q), observe(loaded, cfg, p, q)
+        ctx.count("C19.probes_compared")
+        if not same_obs(a, b):
+            ctx.viol("loaded_evaluator_behaves_differently", dict(det, probe=n, original=a, loaded=b), features=dict(feats, probe=n))
+            return
+        if not same_obs(a, observe(before, cfg, p, q)):
+            sens += 1
+    if sens:
+        ctx.count("C19.sensitive_probes_judged", sens)
+        ctx.count("f:C19.sensitive.setters")
+        ctx.nontrivial("setters", repr(det))
+    else:
+        ctx.count("C19.option_without_sensitive_probe")
+
+
 SHIPPED = [
     ("panoptica_evaluator_BRATS", "evaluator"), ("panoptica_evaluator_ISLES", "evaluator"), ("panoptica_evaluator_VERSE", "evaluator"),
     ("panoptica_evaluator_unmatched_instance", "evaluator"), ("SegmentationClassGroups_example_unmatchedinstancepair", "groups"),
@@ -408,6 +461,8 @@ def run(case, ctx):
             if "input" not in varied:
                 varied.append("input")
         check_config(ctx, cfg, varied, tmpdir, "rand")
+    elif fam == "setters":
+        setters(ctx, case["i"], tmpdir)
     elif fam == "components":
         components(ctx, case["i"] % 4 if case["i"] < 4 else 3, tmpdir)
     elif fam == "shipped":
